@@ -4,12 +4,11 @@
   `self.evaluator.evaluate(self.converter.convert(votes), n_seats)`) for
     * positional voting  = RankedToPositionalVotes(rank scorer) + Plurality,
     * approval voting    = ApprovalToSimpleVotes(split) + Plurality   (AV, SAV),
-    * the Condorcet evaluators on ranked ballots = RankedToCondorcetVotes() + Copeland / Schulze / minimax.
+  and the one-line `InputOrderSelector`.
   Import-free apart from VotelibModel.*; the converters are C13's models, the evaluators C09's / C05's.
 -/
 import VotelibModel.Simple
 import VotelibModel.Convert
-import VotelibModel.CondorcetEval
 namespace VL.Shape
 open VL VL.Convert
 
@@ -29,8 +28,7 @@ def positionalPlurality (sc : Scorer) (p : RProfile) (n : Nat) : Except Err (Lis
 def approvalPlurality (split : Bool) (p : AProfile) (n : Nat) : Except Err (List Slot) :=
   preConverted (approvalToSimple split) (fun v n => .ok (plurality v n)) p n
 
-/-- `PreConverted(RankedToCondorcetVotes(), evaluator)` for a total pairwise evaluator -/
-def onRanked (ev : Condorcet.Pairwise → Nat → List Slot) (p : RProfile) (n : Nat) : List Slot :=
-  ev (rankedToCondorcet true p) n
+/-- `InputOrderSelector.evaluate` (auxiliary.py L107-118): the first `n_seats` keys of the votes dictionary -/
+def inputOrderSelector (votes : Votes) (n : Nat) : List Slot := ((keys votes).take n).map Slot.cand
 
 end VL.Shape
